@@ -129,6 +129,29 @@ CLAIMED = {
          "index data examine every element; ANSS16's size guard accepts every storable size (finite boundary evaluation).",
          "Trusted: CPython's ast parser, sa/terms.py, sa/symlen.py, sa/props/c01.py. Assumes deterministic collision-free "
          "primitives (C14-C16) and that DP17's random bucket choice finds room. Concrete results are never computed."),
+ "C14": ("position-wise comparison of the use-def terms of Encrypt and Decrypt + guard location with dominance",
+         "Decides that AESxCBC.Encrypt and Decrypt are structural inverses around the library cipher: iv || update || finalize "
+         "on one side, split at the same symbolic offset, CBC(iv) from the first part, update + finalize, pad/unpad with the same "
+         "block size, Cipher(AES(key), CBC(iv)) on both sides; that the IV is os.urandom(block size) drawn inside the call and "
+         "emitted; that six length guards raise ValueError before any work; that unpadding errors are not swallowed and the "
+         "registry maps the three spellings. Correct decryption as values, the expansion formula and wrong-key behaviour are "
+         "properties of the `cryptography` primitive and are NOT decided.",
+         "Trusted: CPython's ast parser, sa/terms.py, sa/props/c14.py; the `cryptography` package implements AES-CBC/PKCS7 correctly."),
+ "C15": ("state-transformer reconstruction of Feistel loop bodies and symbolic composition (straight-line use-def substitution)",
+         "Decides bijectivity and inverse correctness by shape, for every key, width and round function: the encryption round "
+         "is (a,b) -> (b, a xor F(key,i,b,len a)) with F independent of a; the decryption round composed with it reduces to the "
+         "identity by x^y^y -> x; round orders are reversed; the default round count is even and no caller passes another; "
+         "the round function returns exactly the requested width and is deterministic; Luby-Rackoff is three rounds (R, L xor "
+         "F_i(R)) over three disjoint sub-keys; the PRP wrappers' length guards exist and dominate. A complete static argument "
+         "for the bijection/inverse clauses given C18; pseudo-randomness is not examined.",
+         "Trusted: CPython's ast parser, sa/straight.py, sa/props/c15.py; Bitset operations behave as fixed-width bit vectors (C18)."),
+ "C16": ("state-transformer reconstruction of the expansion loops compared with the RFC 5246 recurrence; effect scan for determinism",
+         "Decides that _tls_p_hash implements P_hash (A(1) = HMAC(key,message); per iteration res || HMAC(key, A || message), "
+         "A' = HMAC(key, A); ceil(output_len/hash_len) iterations; res[:output_len]), that the hash wrapper's counter mode "
+         "hashes message || I2B(c) for c = 1,2,... until long enough and truncates, that the XOF branch requests exactly "
+         "output_length bytes, that HmacPRF passes its declared length and hash, that no randomness/time/state is read, and "
+         "that guards and registries refuse. Equality with an independent implementation on concrete values is NOT computed.",
+         "Trusted: CPython's ast parser, sa/straight.py, sa/props/c16.py; hmac/hashlib are deterministic implementations."),
 }
 NA_REASON = "check under construction in this session (see DESIGN.md section 3); not yet registered"
 NA = {}
